@@ -40,9 +40,11 @@ import (
 	"github.com/lightningnetwork/lnd/htlcswitch/hop"
 	"github.com/lightningnetwork/lnd/input"
 	"github.com/lightningnetwork/lnd/invoices"
+	"github.com/lightningnetwork/lnd/kvdb"
 	"github.com/lightningnetwork/lnd/lntypes"
 	"github.com/lightningnetwork/lnd/lnwallet"
 	"github.com/lightningnetwork/lnd/lnwire"
+	"github.com/lightningnetwork/lnd/ticker"
 )
 
 // ---------------------------------------------------------------------------
@@ -141,8 +143,127 @@ type c08Spec struct {
 	cutAt    []int    // one entry per planned restart (-1: timed restart, -2: cutPred)
 	cutScope []string // "AB" | "BC" | "ALL"
 	cutPred  []*c08Pred
+	// crash (cutAt == -3): Bob dies right after his crashNth-th durable write
+	// of kind crashLabel ("" = any write): every later write of Bob fails and
+	// all his connections are cut; nothing is stopped gracefully before the
+	// restart reloads Bob from what is on disk.
+	crashLabel []string
+	crashNth   []int
+	// flaps: reconnect of ONE channel (both links re-created from disk, the
+	// switches and their mailboxes / circuit maps stay up).
+	flapPred []*c08Pred
+	flapCh   []string
+	flapWait []time.Duration
 	restartT []time.Duration
 	tamper   bool // flip a bit of the first downstream update_fulfill Bob receives
+}
+
+// ---------------------------------------------------------------------------
+// ungraceful crash of Bob: a kvdb wrapper around Bob's one database
+
+var errC08Crashed = fmt.Errorf("c08: node crashed")
+
+var c08Labels = []struct{ fn, label string }{
+	{"AppendRemoteCommitChain", "sign"},
+	{"AdvanceCommitChainTail", "revrecv"},
+	{"UpdateChannelCommitment", "revsend"},
+	{"SetFwdFilter", "fwdfilter"},
+	{"CommitCircuits", "commitcirc"},
+	{"OpenCircuits", "keystone"},
+	{"DeleteCircuits", "delcirc"},
+	{"TrimOpenCircuits", "trim"},
+	{"AckAddHtlcs", "ack"},
+	{"ackSettleFail", "ack"},
+	{"AckSettleFails", "ack"},
+	{"RemoveFwdPkg", "gc"},
+}
+
+func c08WriteLabel() string {
+	var pcs [40]uintptr
+	n := runtime.Callers(3, pcs[:])
+	frames := runtime.CallersFrames(pcs[:n])
+	for {
+		f, more := frames.Next()
+		for _, l := range c08Labels {
+			if strings.Contains(f.Function, l.fn) {
+				return l.label
+			}
+		}
+		if !more {
+			break
+		}
+	}
+	return "other"
+}
+
+type c08CrashDB struct {
+	kvdb.Backend
+	r       *c08Run
+	wmu     sync.Mutex // serialises Bob's writes (bbolt does anyway)
+	crashed bool
+	label   string
+	nth     int // crash after the nth matching write; -1: not armed
+	count   int
+	// flap trigger: after the flapNth-th write of kind flapLabel, ask the
+	// driver to flap channel flapCh and wait until flapLink is quitting.
+	flapLabel string
+	flapNth   int
+	flapCnt   int
+	flapCh    string
+	flapLink  *channelLink
+}
+
+func (d *c08CrashDB) Update(f func(tx kvdb.RwTx) error, reset func()) error {
+	d.wmu.Lock()
+	defer d.wmu.Unlock()
+	if d.crashed {
+		return errC08Crashed
+	}
+	lbl := c08WriteLabel()
+	if err := d.Backend.Update(f, reset); err != nil {
+		return err
+	}
+	if d.flapNth > 0 && d.flapLabel == lbl {
+		d.flapCnt++
+		if d.flapCnt == d.flapNth {
+			d.flapNth = 0
+			select {
+			case d.r.flapSig <- d.flapCh:
+			default:
+			}
+			if l := d.flapLink; l != nil {
+				select {
+				case <-l.cg.Done():
+				case <-time.After(2 * time.Second):
+				}
+			}
+		}
+	}
+	if d.nth >= 0 && (d.label == "" || d.label == lbl) {
+		d.count++
+		if d.count >= d.nth {
+			d.crashed = true
+			d.nth = -1
+			r := d.r
+			r.mu.Lock()
+			r.cut["AB"], r.cut["BC"] = true, true
+			r.cutArmed, r.predArmed = -1, nil
+			r.crashes++
+			r.lines = append(r.lines, fmt.Sprintf("x crash after=%s n=%d", lbl, d.count))
+			r.mu.Unlock()
+			select {
+			case r.cutSig <- struct{}{}:
+			default:
+			}
+		}
+	}
+	return nil
+}
+
+func (d *c08CrashDB) arm(label string, nth int) {
+	d.wmu.Lock()
+	d.crashed, d.label, d.nth, d.count = false, label, nth, 0
+	d.wmu.Unlock()
 }
 
 // ---------------------------------------------------------------------------
@@ -172,6 +293,14 @@ type c08Run struct {
 
 	linkFailed int32
 	holdsOpen  int32 // hold invoices the harness has not yet settled / cancelled
+	crashDB    *c08CrashDB
+	crashes    int
+	flaps      int
+	flapSig    chan string
+	flapPlan   int
+	flapArmed  *c08Pred
+	flapCount  int
+	ackStop    chan struct{}
 
 	idAB, idBC lnwire.ChannelID
 	scAB, scBC lnwire.ShortChannelID
@@ -318,6 +447,17 @@ func (r *c08Run) hook(at string) messageInterceptor {
 		if trigger && after {
 			defer setCut()
 		}
+		if fp := r.flapArmed; fp != nil && prot && fp.at == at && fp.ch == ch &&
+			(strings.HasPrefix(desc, "t="+fp.t+" ") || desc == "t="+fp.t) {
+			r.flapCount++
+			if r.flapCount == fp.nth {
+				r.flapArmed = nil
+				select {
+				case r.flapSig <- r.spec.flapCh[r.flapPlan]:
+				default:
+				}
+			}
+		}
 		r.lines = append(r.lines, fmt.Sprintf("w seq=%d at=%s ch=%s %s", r.seq, at, ch, desc))
 		return false, nil
 	}
@@ -455,14 +595,31 @@ func (r *c08Run) buildNetwork(cc *clusterChannels) error {
 		r.emit("note linkfail epoch=%d ch=%s code=%d action=%d", epoch, r.chanName(id), int(e.code), int(e.FailureAction))
 	}
 	for _, l := range []*channelLink{n.aliceChannelLink, n.firstBobChannelLink, n.secondBobChannelLink, n.carolChannelLink} {
-		l.cfg.OnChannelFailure = onFail
-		// the fixture shares ONE mockObfuscator (which mutates itself) between
-		// all links of all nodes; give every htlc its own.
-		l.cfg.ExtractErrorEncrypter = func(*btcec.PublicKey) (hop.ErrorEncrypter, lnwire.FailCode) {
-			return NewMockObfuscator(), lnwire.CodeNone
-		}
+		r.tuneLink(l, onFail)
 	}
 	r.n = n
+	// In production the switch acks duplicate settle/fail references every
+	// 15s (AckEventTicker); the fixture's ticker never fires. Fire it often.
+	r.ackStop = make(chan struct{})
+	go func(stop chan struct{}, sw *Switch) {
+		ft, ok := sw.cfg.AckEventTicker.(*ticker.Force)
+		if !ok {
+			return
+		}
+		for {
+			select {
+			case <-stop:
+				return
+			case <-time.After(40 * time.Millisecond):
+			}
+			select {
+			case ft.Force <- time.Now():
+			case <-stop:
+				return
+			case <-time.After(20 * time.Millisecond):
+			}
+		}
+	}(r.ackStop, n.bobServer.htlcSwitch)
 	if r.epoch > 0 {
 		cm := n.bobServer.htlcSwitch.circuits
 		r.emit("note bob circuit map after restart: pending=%d open=%d", cm.NumPending(), cm.NumOpen())
@@ -492,7 +649,129 @@ func (r *c08Run) buildNetwork(cc *clusterChannels) error {
 	return fmt.Errorf("links not eligible")
 }
 
+func (r *c08Run) tuneLink(l *channelLink, onFail func(lnwire.ChannelID, lnwire.ShortChannelID, LinkFailureError)) {
+	l.cfg.OnChannelFailure = onFail
+	// the fixture shares ONE mockObfuscator (which mutates itself) between
+	// all links of all nodes; give every htlc its own.
+	l.cfg.ExtractErrorEncrypter = func(*btcec.PublicKey) (hop.ErrorEncrypter, lnwire.FailCode) {
+		return NewMockObfuscator(), lnwire.CodeNone
+	}
+}
+
+// flap reconnects ONE channel: both links are removed from their switches
+// (stopped), messages in flight are lost, both channel objects are reloaded
+// from disk and two new links are attached to the SAME switches (mailboxes and
+// circuit maps survive).
+func (r *c08Run) flap(ch string) error {
+	n := r.n
+	var (
+		srvA, srvB   *mockServer
+		linkA, linkB *channelLink
+		iA, iB       int
+		decA, decB   *mockIteratorDecoder
+	)
+	if ch == "AB" {
+		srvA, srvB, linkA, linkB, iA, iB = n.aliceServer, n.bobServer, n.aliceChannelLink, n.firstBobChannelLink, 0, 1
+		decA, decB = n.aliceOnionDecoder, n.bobOnionDecoder
+	} else {
+		srvA, srvB, linkA, linkB, iA, iB = n.bobServer, n.carolServer, n.secondBobChannelLink, n.carolChannelLink, 2, 3
+		decA, decB = n.bobOnionDecoder, n.carolOnionDecoder
+	}
+	r.mu.Lock()
+	r.cut[ch] = true
+	r.mu.Unlock()
+	id := linkA.ChanID()
+	_ = linkB
+	done := make(chan struct{})
+	go func() {
+		srvA.htlcSwitch.RemoveLink(id)
+		srvB.htlcSwitch.RemoveLink(id)
+		close(done)
+	}()
+	select {
+	case <-done:
+	case <-time.After(30 * time.Second):
+		return fmt.Errorf("flap stop timeout")
+	}
+	// everything still queued for this channel is lost
+	deadline := time.Now().Add(3 * time.Second)
+	for (len(srvA.messages) != 0 || len(srvB.messages) != 0) && time.Now().Before(deadline) {
+		time.Sleep(time.Millisecond)
+	}
+	time.Sleep(2 * time.Millisecond)
+	r.mu.Lock()
+	r.lines = append(r.lines, "x flap ch="+ch)
+	r.cut[ch] = false
+	r.flaps++
+	r.mu.Unlock()
+	cA, err := c08Restore(r.st, r.dbs[iA], r.privs[iA], r.outpoints[iA])
+	if err != nil {
+		return err
+	}
+	cB, err := c08Restore(r.st, r.dbs[iB], r.privs[iB], r.outpoints[iB])
+	if err != nil {
+		return err
+	}
+	epoch := r.epoch
+	onFail := func(id lnwire.ChannelID, _ lnwire.ShortChannelID, e LinkFailureError) {
+		atomic.AddInt32(&r.linkFailed, 1)
+		r.emit("note linkfail epoch=%d ch=%s code=%d action=%d", epoch, r.chanName(id), int(e.code), int(e.FailureAction))
+	}
+	// the fixture's decoder caches iterators that are consumed on first use;
+	// a re-created link must decode afresh (as after a full restart).
+	decA, decB = newMockIteratorDecoder(), newMockIteratorDecoder()
+	lA, err := n.hopNetwork.createChannelLink(srvA, srvB, cA, decA)
+	if err != nil {
+		return err
+	}
+	lB, err := n.hopNetwork.createChannelLink(srvB, srvA, cB, decB)
+	if err != nil {
+		return err
+	}
+	r.tuneLink(lA.(*channelLink), onFail)
+	r.tuneLink(lB.(*channelLink), onFail)
+	if ch == "AB" {
+		n.aliceChannelLink, n.firstBobChannelLink = lA.(*channelLink), lB.(*channelLink)
+	} else {
+		n.secondBobChannelLink, n.carolChannelLink = lA.(*channelLink), lB.(*channelLink)
+	}
+	dl := time.Now().Add(20 * time.Second)
+	for time.Now().Before(dl) {
+		if lA.EligibleToForward() && lB.EligibleToForward() {
+			return nil
+		}
+		time.Sleep(5 * time.Millisecond)
+	}
+	return fmt.Errorf("flap: links not eligible")
+}
+
+func (r *c08Run) armFlap() {
+	r.mu.Lock()
+	defer r.mu.Unlock()
+	r.flapArmed, r.flapCount = nil, 0
+	if r.flapPlan < len(r.spec.flapPred) {
+		fp := r.spec.flapPred[r.flapPlan]
+		if fp.at == "db" {
+			if d := r.crashDB; d != nil && r.n != nil {
+				d.wmu.Lock()
+				d.flapLabel, d.flapNth, d.flapCnt, d.flapCh = fp.t, fp.nth, 0, r.spec.flapCh[r.flapPlan]
+				d.flapLink = r.n.firstBobChannelLink
+				if d.flapCh == "BC" {
+					d.flapLink = r.n.secondBobChannelLink
+				}
+				d.wmu.Unlock()
+			}
+		} else {
+			r.flapArmed = fp
+		}
+	}
+}
+
 func (r *c08Run) stopNetwork() bool {
+	if r.ackStop != nil {
+		close(r.ackStop)
+		r.ackStop = nil
+	}
 	done := make(chan struct{})
 	n := r.n
 	go func() {
@@ -517,6 +796,9 @@ func (r *c08Run) restart() error {
 	r.epochMsgs = 0
 	r.cutArmed = -1
 	r.mu.Unlock()
+	if r.crashDB != nil {
+		r.crashDB.arm("", -1)
+	}
 	var chans [4]*lnwallet.LightningChannel
 	for i := 0; i < 4; i++ {
 		c, err := c08Restore(r.st, r.dbs[i], r.privs[i], r.outpoints[i])
@@ -554,6 +836,9 @@ func (r *c08Run) armCut() {
 	if r.cutPlan < len(r.spec.cutAt) && r.spec.cutAt[r.cutPlan] == -2 {
 		r.predArmed = r.spec.cutPred[r.cutPlan]
 		r.cutScope = r.spec.cutScope[r.cutPlan]
+	}
+	if r.cutPlan < len(r.spec.cutAt) && r.spec.cutAt[r.cutPlan] == -3 && r.crashDB != nil {
+		r.crashDB.arm(r.spec.crashLabel[r.cutPlan], r.spec.crashNth[r.cutPlan])
 	}
 }
 
@@ -860,14 +1145,46 @@ func (r *c08Run) snapshot(tag string) {
 		r.emit("q circ node=%s pending=%d open=%d mailbox=%d", x.name, x.s.circuits.NumPending(),
 			x.s.circuits.NumOpen(), r.mailboxPkts(x.s))
 	}
+	if cm, ok := r.n.bobServer.htlcSwitch.circuits.(*circuitMap); ok {
+		var mem, disk []string
+		nOpen := 0
+		cm.mtx.RLock()
+		for k, c := range cm.pending {
+			if c.HasKeystone() {
+				nOpen++
+				continue
+			}
+			id := "AB." + strconv.FormatUint(k.HtlcID, 10)
+			if k.ChanID == r.scBC {
+				id = "BC." + strconv.FormatUint(k.HtlcID, 10)
+			}
+			if c.LoadedFromDisk {
+				disk = append(disk, id)
+			} else {
+				mem = append(mem, id)
+			}
+		}
+		cm.mtx.RUnlock()
+		sort.Strings(mem)
+		sort.Strings(disk)
+		r.emit("q bobcirc keystone=%d halfopen_mem=%s halfopen_disk=%s", nOpen, c08Join(mem), c08Join(disk))
+	}
 	for _, e := range r.ends()[1:3] {
 		pkgs, err := e.ch.LoadFwdPkgs()
 		if err != nil {
 			r.emit("note fwdpkgs %s: %s", e.name, c08clean(err.Error()))
 			continue
 		}
-		var adds, acked, sf, sfAcked, fwd int
+		var adds, acked, sf, sfAcked, fwd, ff, ffAcked int
 		for _, p := range pkgs {
+			for i, u := range p.SettleFails {
+				if _, ok := u.UpdateMsg.(*lnwire.UpdateFailHTLC); ok {
+					ff++
+					if p.SettleFailFilter.Contains(uint16(i)) {
+						ffAcked++
+					}
+				}
+			}
 			adds += len(p.Adds)
 			sf += len(p.SettleFails)
 			for i := range p.Adds {
@@ -884,7 +1201,7 @@ func (r *c08Run) snapshot(tag string) {
 				}
 			}
 		}
-		r.emit("q fwd end=%s pkgs=%d adds=%d fwd=%d acked=%d sf=%d sfacked=%d", e.name, len(pkgs), adds, fwd, acked, sf, sfAcked)
+		r.emit("q fwd end=%s pkgs=%d adds=%d fwd=%d acked=%d sf=%d sfacked=%d fails=%d failsacked=%d", e.name, len(pkgs), adds, fwd, acked, sf, sfAcked, ff, ffAcked)
 		r.emitPkgState("q", e.name, e.ch)
 	}
 }
@@ -904,7 +1221,14 @@ func (r *c08Run) run() (status string) {
 	// into the DB that also holds Alice<->Bob, the circuit map and the
 	// forwarding packages (the fixture would give it a DB of its own, which
 	// turns the cross-channel AddRef / SettleFailRef acks into no-ops).
-	bobDB := c08ParentDB(r.tb, cc.bobToAlice)
+	rawBobDB := c08ParentDB(r.tb, cc.bobToAlice)
+	r.crashDB = &c08CrashDB{Backend: rawBobDB.Backend, r: r, nth: -1}
+	bobDB, err := channeldb.CreateWithBackend(r.crashDB)
+	if err != nil {
+		r.emit("note setup wrap: %s", c08clean(err.Error()))
+		return
+	}
+	cc.bobToAlice.State().Db = bobDB.ChannelStateDB()
 	st := cc.bobToCarol.State()
 	st.Db = bobDB.ChannelStateDB()
 	if err := st.SyncPending(&net.TCPAddr{IP: net.ParseIP("127.0.0.1"), Port: 18557}, 1); err != nil {
@@ -925,6 +1249,7 @@ func (r *c08Run) run() (status string) {
 		r.stopNetwork()
 		return
 	}
+	r.armFlap()
 	defer func() {
 		if !r.stopNetwork() {
 			r.emit("note final stop timeout")
@@ -965,7 +1290,7 @@ func (r *c08Run) run() (status string) {
 		if nextRestart >= len(spec.restartT) {
 			return false
 		}
-		if spec.cutAt[nextRestart] >= 0 || spec.cutAt[nextRestart] == -2 {
+		if spec.cutAt[nextRestart] >= 0 || spec.cutAt[nextRestart] <= -2 {
 			if cutSeen.IsZero() {
 				select {
 				case <-r.cutSig:
@@ -996,10 +1321,21 @@ func (r *c08Run) run() (status string) {
 				}
 				start = time.Now()
 			}
+			select {
+			case ch := <-r.flapSig:
+				time.Sleep(spec.flapWait[r.flapPlan])
+				if err := r.flap(ch); err != nil {
+					r.emit("note flap: %s", c08clean(err.Error()))
+					return false
+				}
+				r.flapPlan++
+				r.armFlap()
+			default:
+			}
 			if !time.Now().Before(end) {
 				return true
 			}
-			time.Sleep(2 * time.Millisecond)
+			time.Sleep(500 * time.Microsecond)
 		}
 	}
 
@@ -1024,6 +1360,14 @@ func (r *c08Run) run() (status string) {
 		}
 	}
 
+	if len(spec.flapPred) > 0 {
+		fEnd := time.Now().Add(4 * time.Second)
+		for r.flapPlan < len(spec.flapPred) && time.Now().Before(fEnd) {
+			if !serve(10 * time.Millisecond) {
+				return "restart_error"
+			}
+		}
+	}
 	q := r.waitQuiescent(slow)
 	for _, p := range spec.pays {
 		res := r.resultOf(p)
@@ -1036,8 +1380,8 @@ func (r *c08Run) run() (status string) {
 	r.mu.Lock()
 	dropped, delayed := r.dropped, r.delayed
 	r.mu.Unlock()
-	r.emit("info dropped=%d delayed=%d linkfailed=%d restarts=%d fixture_errs=%d", dropped, delayed,
-		atomic.LoadInt32(&r.linkFailed), r.epoch, len(r.tb.c08errs()))
+	r.emit("info dropped=%d delayed=%d linkfailed=%d restarts=%d crashes=%d flaps=%d fixture_errs=%d", dropped, delayed,
+		atomic.LoadInt32(&r.linkFailed), r.epoch, r.crashes, r.flaps, len(r.tb.c08errs()))
 	r.emit("quiesced => %s", q)
 	return "ran"
 }
@@ -1092,7 +1436,11 @@ func c08Script(seed int64, idx int) *c08Spec {
 		s.cutPred = []*c08Pred{a, b}
 		s.restartT = []time.Duration{30 * time.Millisecond, 30 * time.Millisecond}
 	}
-	switch idx / 2 {
+	sc := idx / 2
+	if sc == 4 {
+		sc = 99 // the partially acked package scenario (default branch)
+	}
+	switch sc {
 	case 0:
 		// crash right after Bob offered the outgoing add (unsigned); after the
 		// restart Bob fails the incoming htlc; crash again when only Bob's final
@@ -1112,6 +1460,49 @@ func c08Script(seed int64, idx int) *c08Spec {
 		// downstream fail: crash when Bob revoked but did not yet sign / relay.
 		s.pays = []*c08Pay{mk(dir, c08KUnknown, amt)}
 		two(&c08Pred{at: "bob", ch: second, t: "fail", nth: 1}, &c08Pred{at: snd, ch: first, t: "fail", nth: 1})
+	case 5:
+		// downstream fail relayed upstream; Bob dies right after persisting
+		// the commitment that carries the upstream fail (4th signature of the
+		// run), i.e. before the circuit is deleted and before commit_sig is sent.
+		s.pays = []*c08Pay{mk(dir, c08KUnknown, amt)}
+		s.cutAt, s.cutScope, s.cutPred = []int{-3}, []string{"ALL"}, []*c08Pred{nil}
+		s.crashLabel, s.crashNth = []string{"sign"}, []int{4}
+		s.restartT = []time.Duration{40 * time.Millisecond}
+	case 6:
+		// Bob dies between OpenCircuits (keystone) and the signature of the
+		// outgoing add.
+		s.pays = []*c08Pay{mk(dir, c08KValid, amt)}
+		s.cutAt, s.cutScope, s.cutPred = []int{-3}, []string{"ALL"}, []*c08Pred{nil}
+		s.crashLabel, s.crashNth = []string{"keystone"}, []int{1}
+		s.restartT = []time.Duration{40 * time.Millisecond}
+	case 7:
+		// Bob dies right after CommitCircuits / right after SetFwdFilter.
+		s.pays = []*c08Pay{mk(dir, c08KValid, amt)}
+		s.cutAt, s.cutScope, s.cutPred = []int{-3}, []string{"ALL"}, []*c08Pred{nil}
+		s.crashLabel, s.crashNth = []string{[]string{"commitcirc", "fwdfilter"}[rng.Intn(2)]}, []int{1}
+		s.restartT = []time.Duration{40 * time.Millisecond}
+	case 8:
+		// settle path: Bob dies after the n-th signature (n = 3..5), around
+		// the persisted upstream settle.
+		s.pays = []*c08Pay{mk(dir, c08KValid, amt)}
+		s.cutAt, s.cutScope, s.cutPred = []int{-3}, []string{"ALL"}, []*c08Pred{nil}
+		s.crashLabel, s.crashNth = []string{"sign"}, []int{3 + rng.Intn(3)}
+		s.restartT = []time.Duration{40 * time.Millisecond}
+	case 9:
+		// link flap of the outgoing channel right when the peer's
+		// revoke_and_ack that completes a downstream fail reaches Bob.
+		s.pays = []*c08Pay{mk(dir, c08KUnknown, amt)}
+		s.flapPred = []*c08Pred{{at: "bob", ch: second, t: "rev", nth: 2}}
+		s.flapCh = []string{second}
+		s.flapWait = []time.Duration{time.Duration(rng.Intn(3000)) * time.Microsecond}
+	case 10:
+		// the INCOMING link is stopped right after Switch.ForwardPackets made
+		// the circuit durable (CommitCircuits) and before the add packet was
+		// handed to the switch's forwarder.
+		s.pays = []*c08Pay{mk(dir, c08KValid, amt)}
+		s.flapPred = []*c08Pred{{at: "db", t: "commitcirc", nth: 1}}
+		s.flapCh = []string{first}
+		s.flapWait = []time.Duration{0}
 	default:
 		// a forwarding package whose FIRST add is already acked while a LATER
 		// add has only a half-open circuit at the crash: Z exhausts Bob's
@@ -1139,7 +1530,7 @@ func c08Script(seed int64, idx int) *c08Spec {
 	return s
 }
 
-const c08NumScripts = 10
+const c08NumScripts = 22
 
 func c08GenSpec(seed int64, idx int, tier string) *c08Spec {
 	if idx < c08NumScripts {
@@ -1153,7 +1544,7 @@ func c08GenSpec(seed int64, idx int, tier string) *c08Spec {
 	if rng.Intn(2) == 0 {
 		s.capSat2 = caps[rng.Intn(len(caps))]
 	}
-	kinds := []string{"plain", "delay", "delay", "cut", "cut", "cut", "restart", "restart", "tamper"}
+	kinds := []string{"plain", "delay", "crash", "cut", "cut", "crash", "restart", "flap", "tamper", "crash", "flap", "cut"}
 	s.kind = kinds[idx%len(kinds)]
 	np := 6 + rng.Intn(9)
 	if tier == "thorough" {
@@ -1172,7 +1563,7 @@ func c08GenSpec(seed int64, idx int, tier string) *c08Spec {
 			if s.kind == "cut" {
 				s.cutAt = append(s.cutAt, rng.Intn(12*np/(i+1)+4))
 				s.cutScope = append(s.cutScope, []string{"AB", "BC", "ALL"}[rng.Intn(3)])
-				s.restartT = append(s.restartT, time.Duration(rng.Intn(120))*time.Millisecond)
+				s.restartT = append(s.restartT, time.Duration(rng.Intn(120)+rng.Intn(2)*rng.Intn(700))*time.Millisecond)
 			} else {
 				s.cutAt = append(s.cutAt, -1)
 				s.cutScope = append(s.cutScope, "")
@@ -1182,6 +1573,41 @@ func c08GenSpec(seed int64, idx int, tier string) *c08Spec {
 		if rng.Intn(2) == 0 {
 			s.delayProb = 0.1
 			s.delayMax = 15 * time.Millisecond
+		}
+	case "crash":
+		nr := 1 + rng.Intn(2)
+		labels := []string{"sign", "sign", "sign", "delcirc", "keystone", "commitcirc", "fwdfilter", "revrecv", "revrecv",
+			"revsend", "ack", "", ""}
+		for i := 0; i < nr; i++ {
+			l := labels[rng.Intn(len(labels))]
+			s.cutAt = append(s.cutAt, -3)
+			s.cutScope = append(s.cutScope, "ALL")
+			s.cutPred = append(s.cutPred, nil)
+			s.crashLabel = append(s.crashLabel, l)
+			max := 2 * np
+			if l == "" {
+				max = 12 * np
+			}
+			s.crashNth = append(s.crashNth, 1+rng.Intn(max/(i+1)+1))
+			s.restartT = append(s.restartT, time.Duration(rng.Intn(300))*time.Millisecond)
+		}
+		if rng.Intn(3) == 0 {
+			s.delayProb = 0.1
+			s.delayMax = 15 * time.Millisecond
+		}
+	case "flap":
+		nf := 1 + rng.Intn(3)
+		for i := 0; i < nf; i++ {
+			ch := []string{"AB", "BC"}[rng.Intn(2)]
+			if rng.Intn(3) == 0 {
+				s.flapPred = append(s.flapPred, &c08Pred{at: "db",
+					t: []string{"commitcirc", "fwdfilter", "revrecv", "sign", "keystone", "delcirc"}[rng.Intn(6)], nth: 1 + rng.Intn(np)})
+			} else {
+				s.flapPred = append(s.flapPred, &c08Pred{at: "bob", ch: ch,
+					t: []string{"rev", "rev", "sig", "ful", "fail", "add"}[rng.Intn(6)], nth: 1 + rng.Intn(np)})
+			}
+			s.flapCh = append(s.flapCh, ch)
+			s.flapWait = append(s.flapWait, time.Duration(rng.Intn(4000))*time.Microsecond)
 		}
 	case "tamper":
 		s.tamper = true
@@ -1291,6 +1717,7 @@ func TestVerifC08(t *testing.T) {
 						st: st, tb: &c08TB{TB: st}, spec: spec,
 						rng: rand.New(rand.NewSource(seed ^ int64(i)<<20 ^ 0x5eed)),
 						cut: map[string]bool{}, cutArmed: -1, cutSig: make(chan struct{}, 4),
+						flapSig:  make(chan string, 4),
 						lastWire: time.Now(),
 					}
 					done := make(chan struct{})
